@@ -280,6 +280,11 @@ HOSTILE_NAME_TABLES = [
      "DstNested": "Dst", "Src": "int", "Dst": "list", "convert_it": "exec"},
     {"_table": 3, "a": "a", "b": "b", "c": "c", "n": "n", "p": "p", "srcmodel": "src", "SrcNested": "a-b", "DstNested": "class", "Src": "1abc",
      "Dst": "with space", "convert_it": "conv-erter\nx = CANARY()"},
+    # the function name coincides with an identifier of the generated module / is made of \w characters that are not identifier characters
+    {"_table": 4, "a": "a", "b": "b", "c": "c", "n": "n", "p": "p", "srcmodel": "src", "SrcNested": "Coercer", "DstNested": "coercer", "Src": "S",
+     "Dst": "D", "convert_it": "coercer"},
+    {"_table": 5, "a": "a", "b": "b", "c": "c", "n": "n", "p": "p", "srcmodel": "src", "SrcNested": "N²", "DstNested": "M\u0660", "Src": "S²",
+     "Dst": "D①", "convert_it": "a²"},
     {"_table": 2, "a": "переменная", "b": "ñ", "c": "δ", "n": "变量", "p": "π", "srcmodel": "источник", "SrcNested": "Ünï", "DstNested": "Ωmega",
      "Src": "Модель", "Dst": "Цель", "convert_it": "преобразовать"},
 ]
